@@ -49,6 +49,59 @@ fn cursor_list(rng: &mut Rng, input: &str) -> Vec<u32> {
     v
 }
 
+/// `pasfmt --cursor a,b,c`: the CURSOR= line on stderr must carry what the library reports, in
+/// the given order; with more than one file the cursors are dropped
+fn cli_case(ctx: &Ctx, rng: &mut Rng, out: &mut CaseOut) {
+    use crate::cli::{self, Invocation, Scratch};
+    let scratch = Scratch::new(&ctx.work_dir, "c15");
+    for _ in 0..4 {
+        let w = common::well_formed(ctx, rng, 12);
+        let cfg = Cfg::sample_sane(rng);
+        let mut cursors = cursor_list(rng, &w.text);
+        cursors.truncate(16);
+        if cursors.is_empty() {
+            continue;
+        }
+        let lib = exec::format_obs(&cfg, &w.text, &cursors, exec::SOFT_STEP_LIMIT);
+        let Ok(lib_out) = &lib.out else { continue };
+        let mut args = cfg.to_cli_args();
+        args.push("--cursor".into());
+        args.push(cursors.iter().map(|c| c.to_string()).collect::<Vec<_>>().join(","));
+        out.evals += 2;
+        out.count("cli.cursor_runs");
+        let r = cli::run(Invocation { bin: &ctx.cli_bin, args: args.clone(), cwd: &scratch.path, stdin: Some(w.text.as_bytes().to_vec()), env: vec![], as_nobody: false });
+        if !r.ok() {
+            continue;
+        }
+        if r.stdout != lib_out.as_bytes() {
+            out.violate("C15", "cli-cursors-change-output", format!("[{}] the binary's output with --cursor differs from the library's output", cfg.short()), &w.text, Some(&cfg));
+        }
+        let line = r.stderr_text().lines().find_map(|l| l.strip_prefix("CURSOR=").map(|s| s.to_string()));
+        let expect = lib.cursors.iter().map(|c| c.to_string()).collect::<Vec<_>>().join(",");
+        match line {
+            Some(l) if l == expect => {}
+            other => out.violate("C15", "cli-cursor-line", format!("[{}] stderr CURSOR line {:?}, library reports {:?} for cursors {:?}", cfg.short(), other, expect, cursors), &w.text, Some(&cfg)),
+        }
+        // two files: cursors cannot be tracked and must be dropped, files still formatted
+        let a = scratch.path.join("a.pas");
+        let b = scratch.path.join("b.pas");
+        let _ = std::fs::write(&a, &w.text);
+        let _ = std::fs::write(&b, &w.text);
+        let mut args2 = cfg.to_cli_args();
+        args2.extend(["--cursor".to_string(), "1".to_string(), "--".to_string(), "a.pas".to_string(), "b.pas".to_string()]);
+        let r2 = cli::run(Invocation { bin: &ctx.cli_bin, args: args2, cwd: &scratch.path, stdin: None, env: vec![], as_nobody: false });
+        if r2.ok() {
+            if r2.stderr_text().lines().any(|l| l.starts_with("CURSOR=")) {
+                out.violate("C15", "cli-cursor-not-dropped", format!("[{}] CURSOR line printed although two files were formatted", cfg.short()), &w.text, Some(&cfg));
+            }
+            if std::fs::read(&a).unwrap_or_default() != lib_out.as_bytes() {
+                out.violate("C15", "cli-cursors-change-output", format!("[{}] file formatted with a dropped --cursor differs from the library's output", cfg.short()), &w.text, Some(&cfg));
+            }
+        }
+        out.nontrivial.push(rng::hash_combine(rng::hash_str(&w.text), cursors[0] as u64));
+    }
+}
+
 impl Prop for C15 {
     fn id(&self) -> &'static str {
         "C15"
@@ -62,9 +115,16 @@ impl Prop for C15 {
     fn floor(&self, tier: Tier) -> u64 {
         tier.pick(5_000, 100_000)
     }
+    fn needs_cli(&self) -> bool {
+        true
+    }
     fn run_case(&self, ctx: &Ctx, idx: u64) -> CaseOut {
         let mut out = CaseOut::default();
         let mut rng = Rng::derive(ctx.seed, "C15", idx);
+        if idx % 25 == 24 && ctx.cli_bin.exists() {
+            cli_case(ctx, &mut rng, &mut out);
+            return out;
+        }
         for k in 0..16 {
             let (input, kind) = if rng.chance(3, 5) {
                 let w = common::well_formed(ctx, &mut rng, 20);
